@@ -85,6 +85,14 @@ def universe(tier):
         ('DF{a:[1.,2.]}@A', pd.DataFrame({'a': [1., 2.]}, index=A)), ('DF{b:[1.,2.]}@A', pd.DataFrame({'b': [1., 2.]}, index=A)),
         ('DF{a:[1.,2.]}@B', pd.DataFrame({'a': [1., 2.]}, index=B)), ('DF{a:[1.,nan]}@A', pd.DataFrame({'a': [1., np.nan]}, index=A)),
         ('DF{a:[1,2],b:[3,4]}@A', pd.DataFrame({'a': [1., 2.], 'b': [3., 4.]}, index=A)), ('DF[]', pd.DataFrame(index=E0)),
+        # default integer labels produced by slicing: equal labels and cells, different RangeIndex parameters, and the explicit-label twin
+        ('DF5[::2]', pd.DataFrame({'a': [1., 9., 2., 9., 3.]}).iloc[::2]), ('DF6[::2]', pd.DataFrame({'a': [1., 9., 2., 9., 3., 9.]}).iloc[::2]),
+        ('DF@[0,2,4]', pd.DataFrame({'a': [1., 2., 3.]}, index=[0, 2, 4])), ('S5[::2]', pd.Series([1., 9., 2., 9., 3.]).iloc[::2]),
+        ('S6[::2]', pd.Series([1., 9., 2., 9., 3., 9.]).iloc[::2]), ('DF[0:0]', pd.DataFrame({'a': [1., 2., 3.]}).iloc[0:0]), ('DF[2:2]', pd.DataFrame({'a': [1., 2., 3.]}).iloc[2:2]),
+        # a None cell is not a NaN cell, inside arrays and pandas objects as anywhere else
+        ('arr[1,None]o', np.array([1, None], dtype=object)), ('arr[1,nan]o', np.array([1, float('nan')], dtype=object)),
+        ('S[1,None]o@A', pd.Series([1, None], A, dtype=object)), ('S[1,nan]o@A', pd.Series([1, float('nan')], A, dtype=object)),
+        ('DF{a:[1,None]}o@A', pd.DataFrame({'a': pd.Series([1, None], A, dtype=object)})), ('DF{a:[1,nan]}o@A', pd.DataFrame({'a': pd.Series([1, float('nan')], A, dtype=object)})),
         # frames with a ZERO dimension but different labels on the other axis: same shape, no cells to compare, still unequal
         ('DF0x{a,b}', pd.DataFrame({'a': [], 'b': []}, index=E0, dtype=float)), ('DF0x{a,c}', pd.DataFrame({'a': [], 'c': []}, index=E0, dtype=float)),
         ('DF{}@A', pd.DataFrame(index=A)), ('DF{}@B', pd.DataFrame(index=B)),
